@@ -278,6 +278,7 @@ type probeStats struct {
 //     none) and whether it accepted the input.
 //   - measure: sample allocation (runtime.ReadMemStats is a stop-the-world call, so not every call is
 //     measured; every call with an inflated prefix is).
+//
 // The allocation bound is 64*len(input)+64KiB of TotalAlloc for the whole call; only one task runs at a
 // time in the simulator, so nothing else allocates meanwhile. The iteration bound is 3 s of process
 // CPU time for one call on an input of at most a few hundred bytes (a decoder looping on an inflated
